@@ -16,7 +16,10 @@ RULE = ('class tables built with types.new_class.  GenericMixin: every shape fam
         'of them; binding subclasses with 1-2 FURTHER SUBSCRIPTED BASES that have nothing to do with GenericMixin (ordinary generic classes with one '
         'or two parameters, a types.GenericAlias class like list, a class subscribed like typing.Sequence) before / after / on both sides of the '
         'binding base, with a plain mixin anywhere, over direct classes with either base order or with a parametrised mixin of their own, and '
-        'plain subclasses of them; reported only: two subscripted GenericMixin bases, bindings of generic classes that are no GenericMixin classes; '
+        'plain subclasses of them; classes that add GenericMixin themselves (directly or through a plain class M(GenericMixin), at every position) '
+        'and bind an ordinary generic class with one or two parameters, with 0-2 further subscripted bases whose origin has no __orig_bases__ '
+        'before / after it, and plain subclasses; reported only: two subscripted GenericMixin bases, two subscripted generic-class bases none of '
+        'which is a GenericMixin class; '
         'HISTORIES of queries (kind "history"): a family Money(Generic[T1..Tn], GenericMixin) / Euro(Money[..]) / Dollar(Marker, Money[..]) / '
         'Plain(GenericMixin) / Other(GenericMixin, Generic[T1]) / Sub(Euro) whose instances have identity semantics, are value objects '
         '(__eq__ / __hash__ by a shared value: instances of different classes are equal), are unhashable (__eq__ without __hash__) or are '
@@ -352,6 +355,35 @@ def generic_cases(rng, tier):
                 add(t + [cls_(box2), cls_([P(box, a2), P(box + 1, [ty(0)])])], box + 2, None, 'two-mixin-bases')
                 add(pool + [cls_([P(LIB, [ty(rng.randrange(NVOC))]), PL(GM_ID)])], box, None, 'foreign-bound')
                 add(pool + [cls_([PL(GM_ID), P(LIB + 1, [ty(0), ty(1)])])], box, None, 'foreign-bound')
+            # GenericMixin added by the class itself, binding an ordinary generic class: class IntL(Labelled[int], GenericMixin),
+            # class X(Sequence[int], Labelled[int], GenericMixin); GenericMixin at every position, directly or through a plain class M(GenericMixin);
+            # 0-2 further subscripted bases whose origin has no __orig_bases__ (list-like, Sequence-like) before / after the generic one
+            user = LIB + len(pool)                           # class M(GenericMixin)
+            tm = pool + [cls_([PL(GM_ID)])]
+            for f in (0, 1):                                 # Labelled[..] / Two[.., ..]
+                for gm in (GM_ID, user):
+                    for bare in ([], [2], [3], [2, 3], [3, 2]):
+                        for nbefore in range(len(bare) + 1):
+                            core = [P(LIB + b, [ty(rng.randrange(NVOC))]) for b in bare[:nbefore]] \
+                                + [P(LIB + f, [ty(rng.randrange(NVOC)) for _ in range(npar[f])])] \
+                                + [P(LIB + b, [ty(rng.randrange(NVOC))]) for b in bare[nbefore:]]
+                            # a Sequence-like alias needs a typing alias after it (see above)
+                            if any(b[1] == LIB + 3 for b in core[nbefore + 1:]):
+                                continue
+                            for gpos in range(len(core) + 1):
+                                bs = core[:gpos] + [PL(gm)] + core[gpos:]
+                                if any(b[0] == 'param' and b[1] == LIB + 3 and not any(c[0] == 'param' and c[1] in (LIB, LIB + 1, LIB + 3)
+                                                                                         for c in bs[i + 1:]) for i, b in enumerate(bs)):
+                                    continue
+                                tt = tm + [cls_(bs)]
+                                if not valid(tt):
+                                    continue
+                                add(tt, user + 1, None, 'foreign-bound' + ('-bare' if bare else ''))
+                                if not bare:
+                                    add(tt + [cls_([PL(user + 1)])], user + 2, None, 'plainsub-foreign-bound')
+            # reported only: two subscripted generic-class bases, none of them a GenericMixin class (the first one is reported)
+            add(tm + [cls_([P(LIB, [ty(0)]), P(LIB + 1, [ty(1), ty(2)]), PL(GM_ID)])], user + 1, None, 'two-foreign-generic')
+            add(tm + [cls_([PL(GM_ID), P(LIB + 1, [ty(1), ty(2)]), P(LIB, [ty(0)])])], user + 1, None, 'two-foreign-generic')
     # non-generic users
     add([cls_([PL(GM_ID)])], LIB, None, 'nongeneric')
     add([cls_([]), cls_([PL(GM_ID), PL(LIB)])], LIB + 1, None, 'nongeneric')
